@@ -15,7 +15,8 @@
 (***************************************************************************)
 EXTENDS Bridge, Json
 
-CONSTANTS CfgSet, Ids, Hosts, Lens, ReadMax, MaxOpens, MaxBytes, MaxDgrams, Depth, EmitEvery, Faults
+CONSTANTS CfgSet, Ids, Hosts, Lens, ReadMax, MaxOpens, MaxBytes, MaxDgrams, Depth, EmitEvery, Faults,
+          WithBind, WithBridge     \* switch the bind / bridge steps on
 
 VARIABLES st, hist
 vars == <<st, hist>>
@@ -66,10 +67,41 @@ Flt(e) ==
                    [] k = "cutsink" -> CutSink(st, e) [] k = "softcut" -> SoftCutSink(st, e) [] OTHER -> {}) :
           Rec2(t, [op |-> "fault", e |-> e, kind |-> k])
 
+(* bind requests *)
+BindS(e) ==
+  /\ WithBind /\ Cardinality({c \in DOMAIN st.calls[e] : st.calls[e][c].k = "bind"}) < 2
+  /\ \E id \in Ids, host \in Hosts :
+       \E t \in BindStart(st, e, st.ctr, 1, host, 80, id) :
+          Rec2(t, [op |-> "bind", e |-> e, c |-> st.ctr, bt |-> 1, host |-> host, port |-> 80, draws |-> <<id>>])
+BindP(e) == WithBind /\ \E c \in DOMAIN st.calls[e] : st.calls[e][c].k = "bind" /\
+              \E t \in BindPoll(st, e, c) : Rec2(t, [op |-> "bind_poll", e |-> e, c |-> c])
+NextB(e) == WithBind /\ \E t \in NextBind(st, e) : Rec2(t, [op |-> "next_bind", e |-> e])
+BReply(e) == WithBind /\ \E r \in DOMAIN st.breq[e], acc \in BOOLEAN :
+               \E t \in BindReply(st, e, r, acc) : Rec2(t, [op |-> "bind_reply", e |-> e, r |-> r, accept |-> acc])
+BDrop(e) == WithBind /\ \E r \in DOMAIN st.breq[e] :
+               \E t \in BindDrop(st, e, r) : Rec2(t, [op |-> "bind_drop", e |-> e, r |-> r])
+(* the bridge *)
+SEnvs ==
+  {[rd |-> r, wr |-> w, fl |-> f, sh |-> h] :
+     r \in {<<>>, <<Ans("data", 2)>>, <<Ans("data", 1), Ans("data", 2)>>, <<Ans("data", 1), Ans("err", 0)>>,
+            <<Ans("eof", 0)>>, <<Ans("data", 3), Ans("eof", 0)>>, <<Ans("err", 0)>>, <<Ans("pending", 0), Ans("data", 1)>>},
+     w \in {<<>>, <<Ans("ready", 1)>>, <<Ans("ready", 2), Ans("ready", 3)>>, <<Ans("ready", 1), Ans("pending", 0)>>, <<Ans("err", 0)>>},
+     f \in {Ans("ready", 0), Ans("pending", 0), Ans("err", 0)},
+     h \in {Ans("ready", 0), Ans("pending", 0), Ans("err", 0)}}
+BrStart(e) == WithBridge /\ \E h \in AppHs(e) :
+                \E t \in BridgeStart(st, e, h) : Rec2(t, [op |-> "bridge_start", e |-> e, h |-> h])
+BrPoll(e) == WithBridge /\ \E b \in DOMAIN st.br[e], env \in SEnvs :
+                /\ st.hnd[e][st.br[e][b].h].woff <= MaxBytes
+                /\ \E t \in BridgePoll(st, e, b, env) : Rec2(t, [op |-> "bridge_poll", e |-> e, b |-> b, env |-> env])
+BrDrop(e) == WithBridge /\ \E b \in DOMAIN st.br[e] : st.br[e][b].res \in {"ok", "err"} /\
+                \E t \in BridgeDrop(st, e, b) : Rec2(t, [op |-> "bridge_drop", e |-> e, b |-> b])
+
 Next ==
   /\ Len(hist) < Depth
   /\ \E e \in E : Open(e) \/ OpenP(e) \/ Acc(e) \/ Wr(e) \/ Rd(e) \/ Shut(e) \/ Drp(e) \/ DMux(e)
                   \/ DgS(e) \/ DgG(e) \/ Task(e) \/ Task(e) \/ Flt(e)
+                  \/ BindS(e) \/ BindP(e) \/ NextB(e) \/ BReply(e) \/ BDrop(e)
+                  \/ BrStart(e) \/ BrPoll(e) \/ BrDrop(e)
 Spec == Init /\ [][Next]_vars
 
 (* one line per behaviour prefix of length EmitEvery, 2*EmitEvery, ... (behaviours may end early: a
@@ -81,4 +113,5 @@ NoViolation == st.viol = {}
 MkCfg(rwnd, thr, ac, dg, bc, rt) ==
   [rwnd |-> rwnd, thr |-> thr, acceptCap |-> ac, dgCap |-> dg, bindCap |-> bc, retries |-> rt]
 SchedCfgs == {MkCfg(r, t, a, 1, 0, rt) : r \in 1..2, t \in 1..3, a \in 1..2, rt \in 1..2}
+SchedCfgsB == {MkCfg(r, t, 1, 1, bc, 2) : r \in 1..2, t \in 1..2, bc \in 0..2}
 =============================================================================
